@@ -83,6 +83,14 @@ Proof.
   - apply forallb_forall; intros k Hk; apply obsv_eqb_spec, H; assumption.
 Qed.
 
+Lemma second_ok_b_spec : forall keys r1 bs2 r2,
+  second_ok_b keys r1 bs2 r2 = true <-> second_ok keys r1 bs2 r2.
+Proof.
+  intros keys r1 bs2 r2; unfold second_ok_b, second_ok; rewrite forallb_forall; split; intros H k Hk.
+  - apply obsv_eqb_spec, H, Hk.
+  - apply obsv_eqb_spec, H, Hk.
+Qed.
+
 (** * Refutation witnesses *)
 
 (** F13: a transaction of two entries whose second entry finds the memtable full: the
